@@ -138,6 +138,13 @@ func gen(p *simrt.Tape) any {
 			op.Accounts = append(op.Accounts, perm[j])
 			op.Indices = append(op.Indices, uint64(p.Pick(4)))
 		}
+		// a validator that sits in two subcommittees appears twice in one batch, with different messages
+		if (op.Kind == "sync-selections" || op.Kind == "contributions") && p.Pct(35) {
+			j := p.Pick(len(op.Accounts))
+			op.Accounts = append(op.Accounts, op.Accounts[j])
+			op.Indices = append(op.Indices, (op.Indices[j]+1+uint64(p.Pick(3)))%4)
+			n++
+		}
 		budget -= n
 		if p.Pct(12) {
 			switch p.Pick(3) {
